@@ -53,3 +53,37 @@ func verifInit(c *RuntimeContext) {
 	verifPtrs(c)
 	VerifSlotTracer(VerifSlotEvent{Kind: 'b', PLen: int64(len(c.Ptrs))})
 }
+
+// ---- per-type program cache ----
+
+// VerifCacheEvent describes one return of CompileToGetCodeSet / CompileToGetDecoder.
+type VerifCacheEvent struct {
+	Side             string  // "enc" or "dec"
+	Path             string  // "fast-hit", "fast-compiled", "slow"
+	TypePtr          uintptr // requested type
+	ProgType         uintptr // type the returned program was compiled for (encoder), 0 for decoders
+	Prog             uintptr // identity of the returned program / decoder
+	Index            uintptr // cache slot (fast paths)
+	Base, Max, Shift uintptr
+}
+
+// VerifCacheTracer receives return events; VerifCacheGateFunc is called at the scheduling points
+// "lookup" (entry), "miss" (slot read empty, before compiling) and "publish" (before the slot / map is
+// written) and may block: the harness uses it as a cooperative scheduler.  Both nil = off.
+var (
+	VerifCacheTracer   func(VerifCacheEvent)
+	VerifCacheGateFunc func(side, point string, typeptr uintptr)
+)
+
+func verifCacheGate(point string, typeptr uintptr) {
+	if f := VerifCacheGateFunc; f != nil {
+		f("enc", point, typeptr)
+	}
+}
+
+func verifCacheReturn(path string, typeptr uintptr, index uintptr, set *OpcodeSet) {
+	if f := VerifCacheTracer; f != nil && set != nil {
+		f(VerifCacheEvent{Side: "enc", Path: path, TypePtr: typeptr, ProgType: uintptr(unsafe.Pointer(set.Type)), Prog: uintptr(unsafe.Pointer(set)),
+			Index: index, Base: typeAddr.BaseTypeAddr, Max: typeAddr.MaxTypeAddr, Shift: typeAddr.AddrShift})
+	}
+}
